@@ -915,68 +915,75 @@ class FakedWBEMConnection(WBEMConnection):
             namespace = namespace or self.default_namespace
             self._mainprovider.validate_namespace(namespace)
 
-            if isinstance(objects, list):
-                for obj in objects:
-                    self.add_cimobjects(obj, namespace=namespace)
+            self._add_cimobjects(objects, namespace)
 
-            else:
-                obj = objects
-                if isinstance(obj, CIMClass):
-                    cc = obj.copy()
-                    if cc.superclass:
-                        if not self._mainprovider.class_exists(
-                                namespace, cc.superclass):
-                            raise ValueError(
-                                _format("Class {0!A} defines superclass {1!A} "
-                                        "but the superclass does not exist in "
-                                        "the repository.",
-                                        cc.classname, cc.superclass))
+    def _add_cimobjects(self, objects, namespace):
+        """
+        Add the CIM object or the (possibly nested) list of CIM objects to
+        the namespace, which has been validated by the caller.
+        """
+        if isinstance(objects, list):
+            for obj in objects:
+                self._add_cimobjects(obj, namespace)
+            return
 
-                    # pylint: disable=protected-access
-                    cc1 = self._mainprovider._resolve_class(
-                        cc, namespace,
-                        self.cimrepository.get_qualifier_store(namespace),
-                        verbose=False)
+        obj = objects
+        if isinstance(obj, CIMClass):
+            cc = obj.copy()
+            if cc.superclass:
+                if not self._mainprovider.class_exists(
+                        namespace, cc.superclass):
+                    raise ValueError(
+                        _format("Class {0!A} defines superclass {1!A} "
+                                "but the superclass does not exist in "
+                                "the repository.",
+                                cc.classname, cc.superclass))
 
-                    class_store = self.cimrepository.get_class_store(namespace)
-                    class_store.create(cc.classname, cc1.copy())
+            # pylint: disable=protected-access
+            cc1 = self._mainprovider._resolve_class(
+                cc, namespace,
+                self.cimrepository.get_qualifier_store(namespace),
+                verbose=False)
 
-                elif isinstance(obj, CIMInstance):
-                    inst = obj.copy()
-                    if inst.path is None:
-                        raise ValueError(
-                            _format("Instances added must include a path. "
-                                    "Instance {0!A} does not include a path",
-                                    inst))
-                    if inst.path.namespace is None:
-                        inst.path.namespace = namespace
-                    if inst.path.host is not None:
-                        inst.path.host = None
-                    instance_store = \
-                        self.cimrepository.get_instance_store(namespace)
-                    try:
-                        if instance_store.object_exists(inst.path):
-                            raise ValueError(
-                                _format("Instance {0!A} already exists in "
-                                        "CIM repository", inst))
-                    except CIMError as ce:
-                        raise CIMError(
-                            CIM_ERR_FAILED,
-                            _format("Internal failure of add_cimobject "
-                                    "operation. Rcvd CIMError {0!A}", ce))
-                    instance_store.create(inst.path, inst)
+            class_store = self.cimrepository.get_class_store(namespace)
+            class_store.create(cc.classname, cc1.copy())
 
-                elif isinstance(obj, CIMQualifierDeclaration):
-                    qual = obj.copy()
-                    qualifier_store = \
-                        self.cimrepository.get_qualifier_store(namespace)
-                    qualifier_store.create(qual.name, qual)
+        elif isinstance(obj, CIMInstance):
+            inst = obj.copy()
+            if inst.path is None:
+                raise ValueError(
+                    _format("Instances added must include a path. "
+                            "Instance {0!A} does not include a path",
+                            inst))
+            if inst.path.namespace is None:
+                inst.path.namespace = namespace
+            if inst.path.host is not None:
+                inst.path.host = None
+            instance_store = \
+                self.cimrepository.get_instance_store(namespace)
+            try:
+                if instance_store.object_exists(inst.path):
+                    raise ValueError(
+                        _format("Instance {0!A} already exists in "
+                                "CIM repository", inst))
+            except CIMError as ce:
+                raise CIMError(
+                    CIM_ERR_FAILED,
+                    _format("Internal failure of add_cimobject "
+                            "operation. Rcvd CIMError {0!A}", ce))
+            instance_store.create(inst.path, inst)
 
-                else:
-                    # Internal mocker error
-                    assert False, \
-                        _format("Object to add_cimobjects. {0} invalid type",
-                                type(obj))
+        elif isinstance(obj, CIMQualifierDeclaration):
+            qual = obj.copy()
+            qualifier_store = \
+                self.cimrepository.get_qualifier_store(namespace)
+            qualifier_store.create(qual.name, qual)
+
+        else:
+            # Internal mocker error
+            assert False, \
+                _format("Object to add_cimobjects. {0} invalid type",
+                        type(obj))
 
     def display_repository(self, namespaces=None, dest=None, summary=False,
                            output_format='mof'):
